@@ -212,6 +212,16 @@ def step (st : St) (toks : List String) : St × String :=
         | some s => (⟨s, false⟩, "tree ok")
         | none => (⟨st.s, st.oom⟩, "tree err")
     | _ => (st, "bad-op")
+  | "set" :: sd :: rest =>
+    -- martianhttp.Modifier.SetRequestModifier / SetResponseModifier with that side of the configuration
+    if st.oom then (st, "out-of-model") else
+    match (if sd = "q" then some Side.req else if sd = "s" then some Side.res else none), parseNode (rest.length + 1) rest with
+    | some side, some (cfg, []) =>
+      if !cfgOk cfg then (⟨st.s, true⟩, "out-of-model")
+      else match cfg.compile side with
+        | some _ => (⟨st.s.setSide side cfg, false⟩, "set ok")
+        | none => (st, "set err")
+    | _, _ => (st, "bad-op")
   | "urlstr" :: [s, h, p, q, f] =>
     match unhex s, unhex h, unhex p, unhex q, unhex f with
     | some s, some h, some p, some q, some f =>
